@@ -3,7 +3,7 @@
 // Contracts for package profile, checked by /verif/govc (comment-only; compiled only with -tags verif).
 package profile
 
-//@ prelude c07 c01 c12
+//@ prelude c07 c01 c12 c16
 
 //@ func Genvar(hint string) string
 //@   ensures [C07:gen-prefix] hasPrefix(result, "gen_" + hint + "_")
@@ -149,6 +149,7 @@ package profile
 //@   ensures [C12:fields] result.Negated == negated && result.Name == name && result.Level == level && result.ClassGenerator == targetClass && result.Message == parseMsg(messageExpression) && result.Variable != nil
 
 //@ func ParseExpression(name string, data *y.Yaml, level string, varGenerator *VarGenerator) (Rule, error)
+//@   verify [C13]
 //@   requires [C17:counter] deref(varGenerator).counter >= 0
 //@   requires data != nil && varGenerator != nil && deref(data).data != nil
 //@   ensures [C17:counter] deref(varGenerator).counter >= 0
@@ -226,6 +227,12 @@ package profile
 //@   ensures [C17:rule-or-error] result1 == nil ==> result0 != nil
 
 //@ func ParseConstraint(path pathParser.PropertyPath, variable Variable, constraint *y.Yaml, varGenerator *VarGenerator) ([]Rule, error)
+//@   ensures [C16:malformed-lessThanProperty-is-an-error] let n = asref(*yaml.Node, yamlValueFor(ref(old(deref(constraint).data)), box(string, "lessThanProperty"))) :: ((n != nil && old(deref(n).Kind) == 8 && old(deref(n).Tag) == "!!str" && pathErrF(old(deref(n).Value)) != nil) ==> result1 != nil)
+//@   ensures [C16:malformed-lessThanOrEqualsToProperty-is-an-error] let n = asref(*yaml.Node, yamlValueFor(ref(old(deref(constraint).data)), box(string, "lessThanOrEqualsToProperty"))) :: ((n != nil && old(deref(n).Kind) == 8 && old(deref(n).Tag) == "!!str" && pathErrF(old(deref(n).Value)) != nil) ==> result1 != nil)
+//@   ensures [C16:malformed-equalsToProperty-is-an-error] let n = asref(*yaml.Node, yamlValueFor(ref(old(deref(constraint).data)), box(string, "equalsToProperty"))) :: ((n != nil && old(deref(n).Kind) == 8 && old(deref(n).Tag) == "!!str" && pathErrF(old(deref(n).Value)) != nil) ==> result1 != nil)
+//@   ensures [C16:malformed-disjointWithProperty-is-an-error] let n = asref(*yaml.Node, yamlValueFor(ref(old(deref(constraint).data)), box(string, "disjointWithProperty"))) :: ((n != nil && old(deref(n).Kind) == 8 && old(deref(n).Tag) == "!!str" && pathErrF(old(deref(n).Value)) != nil) ==> result1 != nil)
+//@   ensures [C16:malformed-moreThanProperty-is-an-error] let n = asref(*yaml.Node, yamlValueFor(ref(old(deref(constraint).data)), box(string, "moreThanProperty"))) :: ((n != nil && old(deref(n).Kind) == 8 && old(deref(n).Tag) == "!!str" && pathErrF(old(deref(n).Value)) != nil) ==> result1 != nil)
+//@   ensures [C16:malformed-moreThanOrEqualsToProperty-is-an-error] let n = asref(*yaml.Node, yamlValueFor(ref(old(deref(constraint).data)), box(string, "moreThanOrEqualsToProperty"))) :: ((n != nil && old(deref(n).Kind) == 8 && old(deref(n).Tag) == "!!str" && pathErrF(old(deref(n).Value)) != nil) ==> result1 != nil)
 //@   requires [C17:counter] deref(varGenerator).counter >= 0
 //@   requires constraint != nil && deref(constraint).data != nil && varGenerator != nil
 //@   ensures [C17:counter] deref(varGenerator).counter >= 0
